@@ -88,10 +88,11 @@ def serverOps (st : Option State) (op : String) (arg : String) : Option (Option 
       | "sconfirm" =>
         let hd := arg.splitOn " "
         let sid := (hd.getD 0 "").toNat?
-        let cid := (hd.getD 1 "").toNat?
+        -- the candidate id travels as the request's own string (code points joined by '.')
+        let cid := String.ofList (((hd.getD 1 "").splitOn ".").filterMap fun w => w.toNat?.map Char.ofNat)
         let now := (hd.getD 2 "0").toInt?.getD 0
         match sid with
-        | some sid => some (some (confirm cfg s sid cid now), "ok")
+        | some sid => some (some (confirmId cfg s sid cid now), "ok")
         | none => some (st, "ok")       -- an id that is not a known session: nothing happens
       | "sregister" =>
         let hd := (g 0).splitOn " "
